@@ -29,6 +29,9 @@ pub struct Case {
     pub opt: [u8; 3],
     /// seed of every RNG handed to linfa
     pub seed: u64,
+    /// selects the junk value a re-used target buffer is pre-filled with
+    #[serde(default)]
+    pub junk: u8,
 }
 
 #[derive(Clone, Copy, Debug, PartialEq)]
@@ -80,9 +83,9 @@ pub fn case_strategy(tier: Tier, dom: Dom) -> impl Strategy<Value = Case> {
             proptest::collection::vec(any::<u16>(), m),
             proptest::collection::vec(any::<u16>(), 0..=(2 * m).min(24)),
             any::<[u8; 3]>(),
-            any::<u64>(),
+            (any::<u64>(), any::<u8>()),
         )
-            .prop_map(|(train, w, noise, fresh, picks, perm, dup, opt, seed)| Case {
+            .prop_map(|(train, w, noise, fresh, picks, perm, dup, opt, (seed, junk))| Case {
                 train,
                 w,
                 noise,
@@ -92,6 +95,7 @@ pub fn case_strategy(tier: Tier, dom: Dom) -> impl Strategy<Value = Case> {
                 dup,
                 opt,
                 seed,
+                junk,
             })
     })
 }
